@@ -1,89 +1,64 @@
 (* C06, retry bookkeeping of the monitor (positions 14 e_retry and 15 e_early of Spec.p_step) on the model's own traces.
 
-   ASKED FOR (monitor_retry_on_model / monitor_early_on_model), in the shape of the other monitor_*_on_model theorems:
+   WANTED (monitor_retry_on_model / monitor_early_on_model), in the shape of the other monitor_*_on_model theorems:
      forall cfg t0 evs, selectors_in_range (init cfg t0) evs -> fresh_calls [] evs -> bg_scripts_ok evs ->
        learner_ids_unique evs -> causes_ok evs ->
        panicked (snd (run (init cfg t0) evs)) \/ trace_sub [14] cfg t0 (model_trace cfg t0 evs) = true        (and [15])
-   BOTH ARE FALSE of the model and the current p_step; the theorems below are the refutations (witnesses by vm_compute,
-   ProofsRetry1.v).  Cause: the model, like the Go code, resets the task's retry counter at every assignment; the monitor
-   restarts m_reissue[w] only when the operation lists share no operation; a task that its learner has retried after a
-   worker-reported failure keeps its operations, so when the same worker gets it again the stored count is stale.  The
-   rule of an earlier p_step that covered this (an accepted completion report clears m_reissue[w]) was lost in the rewrite
-   to re-request counting.
+   NOT PROVED YET.  Two attempts on 2026-09-23 each ended in a model trace the monitor of the day rejected; Spec.p_step
+   was repaired twice, and the witnesses are the regression Examples of this file (all 22 positions accept them now):
 
-   rw5_evs: retry count 1, one size class.  register; worker parks; Execute (learner asks for one retry on failure); the
-   parked call is told to run the task; the worker asks again (counted: 1); the worker reports a failure, the learner asks
-   for the retry, the reporting call is handed the same task again (model: counter 0; monitor: still ([0], 1)); the worker
-   asks again: the model tells it (0 < 1), position 14 says "C06:task-reissued-beyond-retry-limit".
-   rw6_evs = rw5_evs + one more re-request: the model fails the task at its limit (INTERNAL), position 15 reads 2 <> 1 and
-   says "C06:task-failed-before-retry-limit". *)
-From VF Require Import Sched.ProofsRetry1 Sched.ProofsRetry2 Sched.Spec Sched.Corr.
+   FIRST ROUND (rw5_evs, rw6_evs; ProofsRetry1.v): a task retried after a worker-reported failure and handed back to the
+   reporting worker keeps its operations, so the stored count survived the model's reset at the assignment; positions 14
+   ("C06:task-reissued-beyond-retry-limit") and 15 ("C06:task-failed-before-retry-limit").  Repair: an accepted completion
+   report deletes m_reissue[w].
+   SECOND ROUND (rw7_evs; ProofsRetry3.v): the operation list of the held task was compared only between two re-requests; in
+   between, deduplication attached a new operation and the no-waiter clean-up removed the old one, the lists were
+   disjoint, the monitor restarted its count while the model went on; position 15.  Repair: every entry follows its task
+   through every post dump (and is dropped when the worker no longer holds it).
+
+   The invariant for the proof is now: m_reissue[w] = (ops0, n) iff w holds an uncompleted task whose operation list is
+   ops0 and whose t_retry is n > 0 ... precisely: an entry (ops0, n) of w means w holds a task with exactly these operations
+   and t_retry = n; a worker that holds a task and has no entry has t_retry = 0 (docs/areas/Sched-retry-proofs.md). *)
+From VF Require Import Sched.ProofsRetry1 Sched.ProofsRetry2 Sched.ProofsRetry3 Sched.Spec Sched.Corr.
 Open Scope Z_scope.
 
-(* position 14: a model history that satisfies every hypothesis, reports no panic, and is rejected *)
-Theorem monitor_retry_on_model_refuted :
-  exists cfg t0 evs,
-    (selectors_in_range (init cfg t0) evs /\ fresh_calls [] evs /\ bg_scripts_ok evs /\ learner_ids_unique evs /\ causes_ok evs) /\
-    ~ panicked (snd (run (init cfg t0) evs)) /\ trace_sub [14%nat] cfg t0 (model_trace cfg t0 evs) = false.
-Proof. exact monitor_retry_on_model_refuted. Qed.
-Print Assumptions monitor_retry_on_model_refuted.
+(* ---- regression (first round): a task retried after a failure report and handed back to the reporting worker ----
+   rw5_evs, rw6_evs: retry count 1; told, one re-request, failure report, the learner asks for the retry and the reporting
+   call gets the task again (model: counter 0), one / two more re-requests (the second fails the task at its limit) *)
+Example retry_monitor_accepts_retried_task_on_same_worker :
+  (selectors_in_range (init rw3_cfg 0) rw6_evs /\ fresh_calls [] rw6_evs /\ bg_scripts_ok rw6_evs /\ learner_ids_unique rw6_evs /\ causes_ok rw6_evs) /\
+  ~ panicked (snd (run (init rw3_cfg 0) rw6_evs)) /\
+  trace_ok rw3_cfg 0 (model_trace rw3_cfg 0 rw5_evs) = true /\ trace_ok rw3_cfg 0 (model_trace rw3_cfg 0 rw6_evs) = true.
+Proof. exact (conj rw6_hypotheses (conj rw6_no_panic (conj rw5_accepted rw6_accepted))). Qed.
 
-(* position 15 *)
-Theorem monitor_early_on_model_refuted :
-  exists cfg t0 evs,
-    (selectors_in_range (init cfg t0) evs /\ fresh_calls [] evs /\ bg_scripts_ok evs /\ learner_ids_unique evs /\ causes_ok evs) /\
-    ~ panicked (snd (run (init cfg t0) evs)) /\ trace_sub [15%nat] cfg t0 (model_trace cfg t0 evs) = false.
-Proof. exact monitor_early_on_model_refuted. Qed.
-Print Assumptions monitor_early_on_model_refuted.
+(* ---- regression (second round): the operation list of a held task is replaced completely between two re-requests ----
+   rw7_evs: retry count 2; told; re-request (1); a second Execute attaches operation 1; the first client leaves and
+   operation 0 is removed; re-request (2); re-request: INTERNAL at the limit.  After ten events the model has t_retry = 2
+   for the task with operations [1]; the monitor's entry is ([1], 2) (it was ([1], 1) before the repair) *)
+Example early_monitor_accepts_replaced_operation_list :
+  (selectors_in_range (init rw7_cfg 0) rw7_evs /\ fresh_calls [] rw7_evs /\ bg_scripts_ok rw7_evs /\ learner_ids_unique rw7_evs /\ causes_ok rw7_evs) /\
+  ~ panicked (snd (run (init rw7_cfg 0) rw7_evs)) /\
+  trace_ok rw7_cfg 0 (model_trace rw7_cfg 0 rw7_evs) = true.
+Proof. exact (conj rw7_hypotheses (conj rw7_no_panic rw7_accepted)). Qed.
 
-(* the statements that were asked for do not hold *)
-Theorem monitor_retry_on_model_false :
-  ~ (forall cfg t0 evs, selectors_in_range (init cfg t0) evs -> fresh_calls [] evs -> bg_scripts_ok evs -> learner_ids_unique evs -> causes_ok evs ->
-       panicked (snd (run (init cfg t0) evs)) \/ trace_sub [14%nat] cfg t0 (model_trace cfg t0 evs) = true).
-Proof. exact monitor_retry_on_model_false. Qed.
-Print Assumptions monitor_retry_on_model_false.
+Example early_regression_counter_and_entry_agree :
+  (let s := fst (run (init rw7_cfg 0) (firstn 10 rw7_evs)) in
+   k_task (get_worker s rw7_w) = Some 0%nat /\ t_retry (get_task s 0%nat) = 2%nat /\ t_resp (get_task s 0%nat) = None /\ task_opids s 0%nat = [1%nat]) /\
+  aget wref_eqb rw7_w (m_reissue (fst (fold_left (fun (acc : mon * dump) x => let '(m, pre) := acc in let '(e, o, d) := x in (pm_final rw7_cfg pre d e o m, d))
+                                                  (model_trace rw7_cfg 0 (firstn 10 rw7_evs)) (mon0, empty_dump)))) = Some ([1%nat], 2%nat).
+Proof. exact (conj rw7_drift rw7_entry). Qed.
 
-Theorem monitor_early_on_model_false :
-  ~ (forall cfg t0 evs, selectors_in_range (init cfg t0) evs -> fresh_calls [] evs -> bg_scripts_ok evs -> learner_ids_unique evs -> causes_ok evs ->
-       panicked (snd (run (init cfg t0) evs)) \/ trace_sub [15%nat] cfg t0 (model_trace cfg t0 evs) = true).
-Proof. exact monitor_early_on_model_false. Qed.
-Print Assumptions monitor_early_on_model_false.
+(* ---- bounded evidence (not a theorem about all histories) ----
+   rt_step true (ProofsRetry3.v) is a copy of the bookkeeping of positions 14 / 15 of the current p_step (it says what
+   p_step_all says on rw7_evs), rt_step false the one of the second round, which rejects rw7_evs *)
+Example retry_bookkeeping_copy_is_faithful_on_witness :
+  rt_run true rw7_cfg mon0 empty_dump (rt_trace (init rw7_cfg 0) rw7_evs) = rt_positions rw7_cfg 0 mon0 empty_dump (rt_trace (init rw7_cfg 0) rw7_evs) /\
+  rt_accepts false rw7_cfg 0 rw7_evs = false /\ rt_accepts true rw7_cfg 0 rw7_evs = true.
+Proof. exact (conj rt_faithful_on_rw7 rt_rw7). Qed.
 
-(* the witnesses, concretely: what the two positions say step by step; no other position complains about rw5_evs *)
-Example retry_witness_rejected_by_position_14_only :
-  trace_comp 14 rw3_cfg 0 (model_trace rw3_cfg 0 rw5_evs) = [""; ""; ""; ""; ""; ""; "C06:task-reissued-beyond-retry-limit"]%string /\
-  trace_sub (seq 0 14 ++ seq 15 7) rw3_cfg 0 (model_trace rw3_cfg 0 rw5_evs) = true.
-Proof. exact (conj rw5_retry_says rw5_others_accept). Qed.
-
-Example early_witness_rejected_by_position_15 :
-  trace_comp 15 rw3_cfg 0 (model_trace rw3_cfg 0 rw6_evs) = [""; ""; ""; ""; ""; ""; ""; "C06:task-failed-before-retry-limit"]%string.
-Proof. exact rw6_early_says. Qed.
-
-(* the drift itself: after the re-assignment (six events) the worker holds task 0, uncompleted, with retry counter 0 and
-   operation list [0], while the monitor's entry for the worker is ([0], 1) *)
-Example retry_witness_drift :
-  let s := fst (run (init rw3_cfg 0) (firstn 6 rw5_evs)) in
-  k_task (get_worker s rw_w) = Some 0%nat /\ t_retry (get_task s 0%nat) = 0%nat /\ t_resp (get_task s 0%nat) = None /\ task_opids s 0%nat = [0%nat] /\
-  aget wref_eqb rw_w (m_reissue (fst (fold_left (fun (acc : mon * dump) x => let '(m, pre) := acc in let '(e, o, d) := x in (pm_final rw3_cfg pre d e o m, d))
-                                                  (model_trace rw3_cfg 0 (firstn 6 rw5_evs)) (mon0, empty_dump)))) = Some ([0%nat], 1%nat).
-Proof. exact rw5_drift. Qed.
-
-(* candidate repair, evidence only (no proof): the bookkeeping of positions 14 / 15 run in isolation (rb_run: rereq,
-   retry_step, pc_early of ProofsMon1.v; it reproduces what p_components says on the retry histories) with the extra rule
-   "a Synchronize event whose completion report names the task the worker holds deletes m_reissue[w]" accepts the three
-   regression histories of PropertiesC06.v and both new witnesses; without the rule it rejects the witnesses *)
-Example retry_repair_candidate_accepts_all_retry_histories :
-  (rb_accepts false rw3_cfg 0 rw5_evs = false /\ rb_accepts false rw3_cfg 0 rw6_evs = false) /\
-  (rb_accepts true rw_cfg 0 rw_evs = true /\ rb_accepts true rw_cfg 0 rw_evs2 = true /\
-   rb_accepts true rw3_cfg 0 rw3_evs = true /\ rb_accepts true rw3_cfg 0 rw4_evs = true /\
-   rb_accepts true rw3_cfg 0 rw5_evs = true /\ rb_accepts true rw3_cfg 0 rw6_evs = true).
-Proof. exact (conj rb_unrepaired_rejects rb_repaired_accepts). Qed.
-
-(* bounded evidence for the same candidate (ProofsRetry2.v): every sequence of four moves (re-request, failure report,
-   Executing report, release of the latest call, deduplicated Execute, a jump past every time-out, success report, a second
-   worker) after "register, park, Execute, told", retry counts 0, 1, 2: the current bookkeeping rejects 0 / 20 / 2 of the
-   panic-free histories, the repaired one none *)
-Example retry_repair_candidate_small_histories :
-  map (fun r => List.length (filter (rs_bad false r) (rs_seqs 4))) [0%nat; 1%nat; 2%nat] = [0%nat; 20%nat; 2%nat] /\
-  map (fun r => filter (rs_bad true r) (rs_seqs 4)) [0%nat; 1%nat; 2%nat] = [[]; []; []].
-Proof. exact rs_search_4. Qed.
+(* small histories (ProofsRetry2.v: 3 x 1000 histories per line, retry counts 0 / 1 / 2): how many panic-free histories are
+   rejected by the bookkeeping of the second round, and by the current one *)
+Example retry_bookkeeping_small_histories :
+  rt_count false [] 3 = [0; 0; 0]%nat /\ rt_count true [] 3 = [0; 0; 0]%nat /\
+  rt_count false [0; 4; 8; 9]%nat 3 = [0; 22; 1]%nat /\ rt_count true [0; 4; 8; 9]%nat 3 = [0; 0; 0]%nat.
+Proof. exact rt_search_3. Qed.
